@@ -7,6 +7,7 @@ import (
 	"go/constant"
 	"go/token"
 	"go/types"
+	"sort"
 	"strings"
 
 	"golang.org/x/tools/go/ssa"
@@ -549,6 +550,26 @@ func (fc *FnCtx) timerRecv(st *State, ch ssa.Value, chosen Term) {
 
 // joinRecv: a receive from a channel declared `joins T.ch ghost` returns only
 // after the goroutine that owns the deferred close(ch) has returned.
+// deliversOK: for a `delivers` channel the receive yields a sent value while the
+// producing goroutine is flagged running.
+func (fc *FnCtx) deliversOK(st *State, ch ssa.Value) (Term, bool) {
+	lv, ok := fc.loadedFrom[ch]
+	if !ok || lv.HasIdx || lv.Elem {
+		return "", false
+	}
+	name := lv.Col + "." + lv.Path
+	g, ok := fc.e.spec.Joins[name]
+	if !ok || !fc.e.spec.Delivers[name] {
+		return "", false
+	}
+	gf := fc.e.spec.Ghosts[g]
+	if gf == nil {
+		return "", false
+	}
+	fc.vc.note("delivery pattern assumed: the goroutine flagged by " + g + " sends exactly one value on " + name + " before closing it")
+	return fc.ghostGet(st, g, gf.Sort, lv.Ref), true
+}
+
 func (fc *FnCtx) joinRecv(st *State, ch ssa.Value, chosen Term) {
 	lv, ok := fc.loadedFrom[ch]
 	if !ok || lv.HasIdx || lv.Elem {
@@ -674,8 +695,12 @@ func (fc *FnCtx) recv(st *State, ch ssa.Value, commaOk bool, resT types.Type, po
 	// a receive from a closed channel yields the zero value; otherwise the
 	// value satisfies the channel invariant
 	fc.timerRecv(st, ch, "true")
+	running, delivers := fc.deliversOK(st, ch)
 	fc.joinRecv(st, ch, "true")
 	okc := vc.fresh("recv_ok", SBool)
+	if delivers {
+		vc.assume(st, mkImp(running, okc))
+	}
 	if fc.e.neverClosed(fc.chanField(ch)) {
 		vc.assume(st, okc)
 	}
@@ -684,10 +709,79 @@ func (fc *FnCtx) recv(st *State, ch ssa.Value, commaOk bool, resT types.Type, po
 	fc.chanInv(sub, ch, v, false, pos, "recv")
 	vc.assume(st, mkImp(mkNot(okc), svEq(v, vc.zero(et))))
 	_ = closed
+	fc.atRecv(st, ch, v, pos)
 	if commaOk {
 		return SV{Typ: resT, T: append(append([]Term{}, v.T...), okc)}
 	}
 	return SV{Typ: resT, T: v.T}
+}
+
+// atRecv: `at recv FIELD#k after set/assert ...` anchors on plain receives.
+func (fc *FnCtx) atRecv(st *State, ch ssa.Value, v SV, pos token.Pos) {
+	if fc.contract == nil {
+		return
+	}
+	field := fc.chanField(ch)
+	if k := strings.LastIndex(field, "."); k >= 0 {
+		field = field[k+1:]
+	}
+	// ordinal among the plain receives on that field, in source order
+	ord := 0
+	var me ssa.Instruction
+	type rc struct {
+		in  ssa.Instruction
+		pos token.Pos
+	}
+	var all []rc
+	for _, b := range fc.fn.Blocks {
+		for _, in := range b.Instrs {
+			if u, ok := in.(*ssa.UnOp); ok && u.Op == token.ARROW {
+				f2 := fc.chanField(u.X)
+				if k := strings.LastIndex(f2, "."); k >= 0 {
+					f2 = f2[k+1:]
+				}
+				if f2 == field {
+					all = append(all, rc{in, in.Pos()})
+					if u.X == ch && in.Pos() == pos {
+						me = in
+					}
+				}
+			}
+		}
+	}
+	sort.SliceStable(all, func(i, j int) bool { return all[i].pos < all[j].pos })
+	for i, r := range all {
+		if r.in == me {
+			ord = i
+		}
+	}
+	for _, a := range fc.contract.Ats {
+		if a.Kind != "recv" || a.Target != field || (a.Ord >= 0 && a.Ord != ord) {
+			continue
+		}
+		a := a
+		fc.vc.atMatched[fmt.Sprintf("%s:%d", a.C.File, a.C.Line)] = true
+		var blk *ssa.BasicBlock
+		if me != nil {
+			blk = me.Block()
+		}
+		env := fc.env(st, blk)
+		env.atInstr = me
+		env.vars["result"] = v
+		fc.vc.safeEval(fmt.Sprintf("%s:%d at recv", a.C.File, a.C.Line), func() {
+			switch a.What {
+			case "set":
+				fc.ghostAssign(st, env, a.SetLHS, a.C.E, me)
+			case "assume":
+				fc.vc.assume(st, env.evalBool(a.C.E))
+				fc.vc.note(fmt.Sprintf("ASSUME at recv %s#%d in %s: %s", field, ord, fc.name, a.C.Src))
+			default:
+				t := env.evalBool(a.C.E)
+				fc.vc.oblige(st, "assert", a.C.Label, fmt.Sprintf("at recv %s#%d:%s", field, ord, a.C.Label), fc.e.pos(pos), t)
+				st.guard = fc.vc.define("g_lem", SBool, mkAnd(st.guard, t))
+			}
+		})
+	}
 }
 
 func (fc *FnCtx) selectStmt(st *State, x *ssa.Select) {
@@ -714,12 +808,16 @@ func (fc *FnCtx) selectStmt(st *State, x *ssa.Select) {
 			continue
 		}
 		fc.timerRecv(st, s.Chan, chosen)
+		running, delivers := fc.deliversOK(st, s.Chan)
 		fc.joinRecv(st, s.Chan, chosen)
 		et := s.Chan.Type().Underlying().(*types.Chan).Elem()
 		v := vc.havoc(et, fmt.Sprintf("sel%d", k), st.alloc)
 		okc := vc.fresh("selrecv_ok", SBool)
 		if fc.e.neverClosed(fc.chanField(s.Chan)) {
 			vc.assume(sub, okc)
+		}
+		if delivers {
+			vc.assume(sub, mkImp(running, okc))
 		}
 		vsub := sub.clone()
 		vsub.guard = vc.define("g_selv", SBool, mkAnd(sub.guard, okc))
